@@ -1,0 +1,13 @@
+//go:build verif
+
+// Contracts for the verification machinery in /verif (comment-only; compiled only with -tags verif).
+
+package model
+
+//@ spec suffixOK(m *SuffixDataModel, algs []uint) bool
+//@ spec suffixOf(m *SuffixDataModel, algs []uint) string
+//@ func GetUniqueSuffix
+//@   trusted
+//@   results s, err
+//@   ensures (err == nil) == suffixOK(model, algs)
+//@   ensures err == nil ==> s == suffixOf(model, algs)
